@@ -26,11 +26,29 @@ class BuilderSystem:
         st.last_infos = []
         st.ctxinfo = []
         self.setup(st)
+        if getattr(self, "bystander", False):
+            self.make_bystander(st)
         st.rec.take()
         return st
 
     def setup(self, st):
         pass
+
+    def make_bystander(self, st):
+        """A second, differently configured builder that lives next to the one under test and is used between its calls:
+        nothing of it may leak into the first one (state shared through class attributes, default arguments, module globals)."""
+        other = Sut({"decimal_places": 1, "comment_symbols": "(", "line_endings": "\r\n", "x_axis": "A"}, self.cls)
+        g = other.g
+        g.transform.translate(7.0, -7.0, 7.0)
+        g.transform.save_state("n")
+        if hasattr(g, "set_bounds"):
+            g.set_bounds("feed-rate", 1, 99)
+            g.set_bounds("tool-power", 1, 9)
+            g.set_bounds("axes", (-50, -50, -50), (50, 50, 50))
+            g.add_hook(bystander_hook)
+            g.set_resolution(0.5)
+        g.set_distance_mode("relative")
+        st.other = other
 
     def feed(self, st, chunks, problems):
         """Decode emitted chunks, feed them to the interpreter."""
@@ -60,6 +78,13 @@ class BuilderSystem:
                 exc, chunks = st.call(op)
         else:
             exc, chunks = st.call(op)
+        if getattr(st, "other", None) is not None:
+            try:
+                st.other.g.move(x=1.25, y=-0.5, F=77)
+                st.other.g.comment("bystander")
+            except Exception:       # noqa: BLE001 - what the bystander does is its own business
+                pass
+            st.other.rec.take()
         if op[0] in ("exit", "exit!", "exit!k"):
             if st.ctxinfo:
                 st.ctxinfo.pop()
@@ -68,6 +93,16 @@ class BuilderSystem:
         st.last_exc = exc
         st.last_rejected = exc is not None
         return exc, chunks
+
+
+def bystander_hook(origin, target, params, state):
+    params["Q"] = 9
+    return params
+
+
+def with_bystander(system):
+    system.bystander = True
+    return system
 
 
 def with_debug_logging(system):
